@@ -3,6 +3,7 @@ package world
 import (
 	"fmt"
 	"math/rand"
+	"time"
 
 	sdk "github.com/cosmos/cosmos-sdk/types"
 
@@ -31,7 +32,8 @@ type PktCfg struct {
 	Tokens    bool    // also send NFT / MT transfers (otherwise mock packets only)
 	FullMesh  bool    // direct clients between all pairs (else a line a-b-c(-d) plus maybe a-c)
 	Rules     [][]string
-	AdvBatch  int // variants per adversarial batch (0 = all)
+	AdvBatch  int           // variants per adversarial batch (0 = all)
+	Delay     time.Duration // confirmation delay of the Tendermint clients (0 = none)
 }
 
 // DefaultPktCfg is the balanced workload.
@@ -66,6 +68,12 @@ func NewPktNetwork(seed int64, rng *rand.Rand, cfg PktCfg) *vnet.Network {
 	names := ChainNames[:cfg.NChains]
 	n := vnet.New(seed, rng, names, 2, 4)
 	cs := n.Chains
+	if cfg.Delay > 0 {
+		old := vnet.DefaultClientCfg
+		c := old
+		c.TimeDelay = uint64(cfg.Delay)
+		n.ClientCfg = &c
+	}
 	if cfg.FullMesh {
 		for i := range cs {
 			for j := i + 1; j < len(cs); j++ {
@@ -140,7 +148,9 @@ func (s *PktSim) route() (src, dst *vnet.Chain, relay string) {
 	return cs[0], cs[1], ""
 }
 
-func (s *PktSim) user(c *vnet.Chain) *vnet.Account { return c.Accounts[1+s.Rng.Intn(len(c.Accounts)-1)] }
+func (s *PktSim) user(c *vnet.Chain) *vnet.Account {
+	return c.Accounts[1+s.Rng.Intn(len(c.Accounts)-1)]
+}
 
 func (s *PktSim) randData() []byte {
 	n := 1 + s.Rng.Intn(40)
@@ -325,6 +335,22 @@ func (s *PktSim) CleanStep() {
 	a.Honest = cpk.Sequence == cur
 	s.W.Do(a)
 	s.sent = append(s.sent, a)
+	// right after an accepted receive-clean: replay (old proof) the receives this chain accepted for that pair,
+	// the one at the clean point first
+	if a.Res.OK() {
+		var olds []*Action
+		for _, o := range s.sent {
+			if o.Kind == "recv" && o.On == on && o.Res != nil && o.Res.OK() && o.Packet != nil &&
+				o.Packet.SourceChain == cpk.SourceChain && o.Packet.DestinationChain == cpk.DestinationChain && o.Packet.Sequence <= cpk.Sequence {
+				olds = append(olds, o)
+			}
+		}
+		for i := len(olds) - 1; i >= 0 && i >= len(olds)-3 && !s.W.Stop; i-- {
+			r := cloneAction(olds[i], "replay-after-clean")
+			rebuild(r)
+			s.W.Do(r)
+		}
+	}
 }
 
 // ---------- adversarial relayer ------------------------------------------
